@@ -749,7 +749,7 @@ type c06Op struct {
 var (
 	c06Names  = []string{"ann", "bob", "cy", "dee", "eve"}
 	c06Emails = []string{"a@x", "b@x", "c@x", "d@x", "e@x"}
-	c06Exp    = []int{1, 7, 10, 30, 90, 3610}
+	c06Exp    = []int{1, 7, 10, 30, 90, 3610, 120 * 24 * 3600}
 	c06NFE    = []int{1, 3, 7, 10, 30}
 	c06Cfgs   = []string{"zero", "neg", "unset"}
 	// primary keys of the histories: numeric boundary family (>= 1e6 prints in exponent form as a
@@ -991,11 +991,8 @@ func (h *c06Hist) checkRead(kind string, got c06Row, err error, want c06Row, exi
 		}
 		return false
 	}
-	if h.corruptInOp && err != nil && !errors.Is(err, ErrNotFound) {
-		// an undecodable cache entry surfaced as an error: neither a stale nor a wrong answer
-		h.counts["reads_failed_on_corrupt_entry"]++
-		return false
-	}
+	// (an entry that cannot be decoded into the row type is no answer: the read must still
+	// return the database's current row — checked by the ordinary rules below)
 	switch {
 	case exists && err == nil && got == want:
 		h.counts["reads_ok_row"]++
@@ -1292,7 +1289,7 @@ func (h *c06Hist) run(r interface {
 		case x < 115:
 			op = c06Op{Op: "delCache0"}
 		case x < 118:
-			op = c06Op{Op: "corrupt", ID: id, D: r.Intn(3)}
+			op = c06Op{Op: "corrupt", ID: id, D: r.Intn(7)}
 		case x < 122:
 			op = c06Op{Op: "dbfault", ID: id, Name: name, D: r.Intn(2)}
 		default:
@@ -1440,8 +1437,18 @@ func (h *c06Hist) run(r interface {
 		case "corrupt":
 			// an undecodable entry sits under the primary key (foreign writer / old schema)
 			key := s.pk(op.ID)
-			for _, mr := range h.env.mrs {
-				_ = mr.Set(key, []string{"{bad json", `"just a string"`, "[1,2"}[op.D%3])
+			// raw: not JSON at all; via SetCache: valid JSON of another shape than the row type
+			switch v := op.D % 7; v {
+			case 0, 1, 2:
+				for _, mr := range h.env.mrs {
+					_ = mr.Set(key, []string{"{bad json", "[1,2", `"just a string"`}[v])
+				}
+			default:
+				_ = s.cc.SetCache(key, []any{"name", 12345, []int{1, 2}, map[string]string{"id": "seven"}}[v-3])
+				plog, _ := h.env.take()
+				if h.absorb(plog, "corrupt (SetCache of another shape)", false, nil, false) {
+					return false
+				}
 			}
 			h.corruptInOp = true
 			got, err := s.findOne(op.ID)
@@ -1702,7 +1709,8 @@ func TestVerifC06TTL(t *testing.T) {
 	reps := vk.N(60, 2000)
 	idx := 0
 	var tps []c06Topo
-	for _, e := range []int{1, 7, 10, 30, 90, 150, 3610} {
+	const day = 24 * 3600
+	for _, e := range []int{1, 7, 10, 30, 90, 150, 3610, 90 * day, 120 * day, 200 * day, 365 * day, 3650 * day} {
 		for _, kind := range []string{"nodeconn", "cluster3"} {
 			tps = append(tps, c06Topo{Kind: kind, Expire: e, NFE: c06NFE[len(tps)%len(c06NFE)]})
 		}
@@ -1723,7 +1731,7 @@ func TestVerifC06TTL(t *testing.T) {
 				continue
 			}
 			reps := reps
-			if tp.ExpireCfg != "" || tp.NFECfg != "" {
+			if tp.ExpireCfg != "" || tp.NFECfg != "" || tp.Expire > 3610 {
 				reps = reps/3 + 1
 				m.Count("boundary_configs", 1)
 			}
